@@ -909,3 +909,109 @@ func init() {
 		},
 	})
 }
+
+func init() {
+	register(&Rule{
+		ID: "C05-j", Template: "T1 must-traverse (the merge's error channel is read before it is replaced)",
+		Doc: "A failed merge is not written out as a result: (*Merger).SortedRows / SortedBlocks start the second phase by replacing the merger's error channel, so whatever the first phase (diffing, resolving) reported is gone afterwards. In every production function that consumes the merge stream (receives from a channel of *merge.Merge) and then asks for the sorted result, the SortedRows / SortedBlocks call is reachable only through the success edge of a (*Merger).Error() call. With only a final Error() check a diff or resolver failure (a missing block of one branch) is lost: the command reports success and the output holds base rows where both branches' edits should be.",
+		Min: 1,
+		Run: func(p *Program, r *RuleResult) error {
+			second, err := p.MustFuncs("pkg/merge.(*Merger).SortedRows", "pkg/merge.(*Merger).SortedBlocks")
+			if err != nil {
+				return err
+			}
+			errf, err := p.MustFuncs("pkg/merge.(*Merger).Error")
+			if err != nil {
+				return err
+			}
+			mergeT, err := p.NamedType("pkg/merge.Merge")
+			if err != nil {
+				return err
+			}
+			isMergeChan := func(t types.Type) bool {
+				ch, ok := t.Underlying().(*types.Chan)
+				if !ok {
+					return false
+				}
+				pt, ok := ch.Elem().Underlying().(*types.Pointer)
+				return ok && types.Identical(pt.Elem(), mergeT)
+			}
+			fns := p.ProdFuncs()
+			r.Analysed = len(fns)
+			for _, fn := range fns {
+				if hasSuffixPath(fnPkgPath(fn), "/pkg/merge") {
+					continue
+				}
+				calls := callsTo(fn, second)
+				if len(calls) == 0 {
+					continue
+				}
+				consumes := false
+				for _, b := range fn.Blocks {
+					for _, in := range b.Instrs {
+						switch x := in.(type) {
+						case *ssa.UnOp:
+							if x.Op == token.ARROW && isMergeChan(x.X.Type()) {
+								consumes = true
+							}
+						case *ssa.Select:
+							for _, st := range x.States {
+								if isMergeChan(st.Chan.Type()) {
+									consumes = true
+								}
+							}
+						}
+					}
+				}
+				if !consumes {
+					continue
+				}
+				var permits []edge
+				for _, ec := range callsTo(fn, errf) {
+					if call, ok := ec.(*ssa.Call); ok {
+						permits = append(permits, successEdges(fn, call)...)
+					}
+				}
+				for _, c := range calls {
+					key := callKey(fn, c) + "|first-phase-error"
+					what := "the first phase's error is read before the second phase replaces the channel"
+					if path, reach := reachAfter(fn, nil, c, mkCut(permits), nil); reach {
+						r.bad(key, p.Rel(c.Pos()), what, fmtPath("the sorted result is requested without Merger.Error() having been found nil after the merge stream was consumed", path))
+					} else {
+						r.ok(key, p.Rel(c.Pos()), what)
+					}
+				}
+			}
+			return nil
+		},
+	})
+}
+
+func hasSuffixPath(s, suf string) bool { return len(s) >= len(suf) && s[len(s)-len(suf):] == suf }
+
+func init() {
+	register(&Rule{
+		ID: "C05-k", Template: "T1 must-traverse (a resolved key is recorded as taken)",
+		Doc: "A row that the merge resolved replaces its base row: (*RowCollector).SaveResolvedRow reports success only after the row's key was added to the set of keys whose base rows are withheld (index.HashSet.Add on discardedRows) — whether the resolution keeps a row or removes it. collectRowsThatStayedTheSame later adds every base row whose key is not in that set; a kept resolution that is not recorded meets its own base row in the result sorter, and which of the two survives the one-row-per-key filter is decided by an unstable sort.",
+		Min: 1,
+		Run: func(p *Program, r *RuleResult) error {
+			fn, err := p.SSAFunc("pkg/merge.(*RowCollector).SaveResolvedRow")
+			if err != nil {
+				return err
+			}
+			add, err := p.MustFuncs("pkg/index.(*HashSet).Add")
+			if err != nil {
+				return err
+			}
+			r.Analysed = 1
+			sum := newSuccSummary(p, add)
+			what := "every success return is preceded by a successful HashSet.Add of the key"
+			if sum.wrapper(fn, wrapperDepth) {
+				r.ok(funcName(fn)+"|recorded", p.Rel(fn.Pos()), what)
+			} else {
+				r.bad(funcName(fn)+"|recorded", p.Rel(fn.Pos()), what, "a success return of SaveResolvedRow is reachable without the key having been added to the discarded-rows set: the base row of a resolved key is added to the result next to its resolution")
+			}
+			return nil
+		},
+	})
+}
